@@ -171,7 +171,7 @@ def run(tier):
         "rule": "programs = every unit of the semantic corpus (see C01), the single-function units again as a method of a class and as a pub function of an imported module (quick: a third), the multi-declaration units again with all declarations in an imported module, and with types and functions in two different imported modules + the benign twin of every C03 rule x context case (quick: level 1 and a sixth of level 2; thorough: all of "
         "level 2 and a ninth of level 3), each with a main; + 41 typed expression atoms alone, nested in 7 container forms, and in all ordered pairs within one function "
         "(packed 60 functions per program, bisected; a pack that only fails as a whole is reported as such); + assignment targets: base (local, `mut` parameter, field of `mut self`) x 11 "
-        "paths of fields and indices up to four steps deep (constant and variable index) x operator (=, +=), bisected per base; domain = programs the real checker accepts; oracle = try_generate succeeds and `incan build` exits 0; "
+        "paths of fields and indices up to four steps deep (constant and variable index) x operator (=, +=), bisected per base; + writes through a loop variable: list base (local, `mut` parameter, field of `mut self`) x 12 places in the loop body (top, then / else / elif with and without a neighbouring statement, nested if, match arm, inner loops) x 3 kinds of write; domain = programs the real checker accepts; oracle = try_generate succeeds and `incan build` exits 0; "
         "non-trivial = distinct signatures of accepted programs that built",
         "samples": [{"sig": list(sig), "program": src} for sig, src in common.pick_samples(twins)],
         "exhaustive": True,
@@ -343,9 +343,44 @@ def lvalue_functions():
             yield ("lvalue:self_field", f"path:{pk}", f"op:{ok_}"), f"class LvHolder{k}:\n    {fld}\n\n    def run(mut self, i: int) -> None:\n        {stgt} {op}\n"
 
 
+# ---- writes through a loop variable: where in the loop body the write stands ----------------------------------------------
+LOOP_WRITE_CTX = {
+    "top": "{W}",
+    "then": "if it.b > 0:\n    {W}",
+    "else_only": "if it.b > 0:\n    pass\nelse:\n    {W}",
+    "else_after_other_statement": "if it.b > 0:\n    pass\nelse:\n    total += 1\n    {W}",
+    "else_before_other_statement": "if it.b > 0:\n    pass\nelse:\n    {W}\n    total += 1",
+    "elif": "if it.b > 5:\n    pass\nelif it.b > 0:\n    {W}",
+    "elif_after_other_statement": "if it.b > 5:\n    pass\nelif it.b > 0:\n    total += 1\n    {W}",
+    "nested_if_in_else": "if it.b > 5:\n    pass\nelse:\n    if it.b > 0:\n        {W}",
+    "match_arm": "match it.b:\n    case 0:\n        total += 1\n        {W}\n    case _:\n        pass",
+    "inner_while": "while total < 0:\n    {W}",
+    "inner_for": "for k in range(1):\n    {W}",
+    "then_after_other_statement": "if it.b > 0:\n    total += 1\n    {W}",
+}
+LOOP_WRITES = {"field_assign": "it.b = 7", "field_compound": "it.b += 1", "nested_list_index": "it.c[0] = 7"}
+LOOP_BASES = {
+    "local_list": ("def lw_{K}(n: int) -> int:\n    mut items = [mk_outer().a, mk_outer().a]\n    mut total = 0\n    for it in items:\n{B}\n    return total + items[0].b\n"),
+    "mut_param_list": ("def lw_{K}(mut items: List[Inner]) -> int:\n    mut total = 0\n    for it in items:\n{B}\n    return total + items[0].b\n"),
+    "self_field_list": ("class LwHolder{K}:\n    items: List[Inner]\n\n    def run(mut self) -> int:\n        mut total = 0\n        for it in self.items:\n{B2}\n        return total\n"),
+}
+
+
+def loop_write_functions():
+    k = 0
+    for bk, tpl in LOOP_BASES.items():
+        for ck, ctx in LOOP_WRITE_CTX.items():
+            for wk, w in LOOP_WRITES.items():
+                k += 1
+                block = ctx.replace("{W}", w)
+                body = "\n".join("        " + l for l in block.split("\n"))
+                body2 = "\n".join("            " + l for l in block.split("\n"))
+                yield ("loopwrite:" + bk, f"where:{ck}", f"write:{wk}"), tpl.replace("{K}", str(k)).replace("{B2}", body2).replace("{B}", body)
+
+
 def lvalue_part(out):
     tail = "\n\ndef main() -> None:\n    pass\n"
-    funs = list(lvalue_functions())
+    funs = list(lvalue_functions()) + list(loop_write_functions())
     reqs = [{"id": i, "op": "front", "src": LV_PRELUDE + f + tail, "emit": True} for i, (sig, f) in enumerate(funs)]
     fr = serve.run_requests(reqs)
     fails, good = [], []
@@ -361,7 +396,7 @@ def lvalue_part(out):
             fails.append((sig, LV_PRELUDE + f + tail, kind, em.get("detail") or em.get("panic") or ""))
         else:
             good.append((sig, f))
-    packs = [[g for g in good if g[0][0] == b] for b in ("lvalue:local", "lvalue:mut_param", "lvalue:self_field")]
+    packs = [[g for g in good if g[0][0] == b] for b in ("lvalue:local", "lvalue:mut_param", "lvalue:self_field", "loopwrite:local_list", "loopwrite:mut_param_list", "loopwrite:self_field_list")]
     packs = [p for p in packs if p]
     built = 0
     prog = lambda fs: LV_PRELUDE + "\n\n".join(f for _, f in fs) + tail
@@ -377,8 +412,22 @@ def lvalue_part(out):
                 h = len(p) // 2
                 nxt += [p[:h], p[h:]]
         packs = nxt
+    # a (base, write) combination that fails wherever the write stands is one class, not one per position
+    by_combo = {}
     for sig, src, kind, detail in fails:
-        out.fail("|".join(sig) + f"|{kind}", {"program": src, "sig": list(sig), "detail": detail})
+        if sig[0].startswith("loopwrite:"):
+            by_combo.setdefault((sig[0], sig[2], kind), set()).add(sig[1])
+    everywhere = {c for c, wheres in by_combo.items() if len(wheres) == len(LOOP_WRITE_CTX)}
+    reported = set()
+    for sig, src, kind, detail in fails:
+        if sig[0].startswith("loopwrite:") and (sig[0], sig[2], kind) in everywhere:
+            key = f"{sig[0]}|where:every-position|{sig[2]}|{kind}"
+            if key in reported:
+                continue
+            reported.add(key)
+            out.fail(key, {"program": src, "sig": list(sig), "detail": detail})
+        else:
+            out.fail("|".join(sig) + f"|{kind}", {"program": src, "sig": list(sig), "detail": detail})
     ok_sigs = {sig for sig, f in good} - {sig for sig, *_ in fails}
     return {"lvalue_functions": len(funs), "lvalue_accepted": n_acc, "lvalue_built": built}, ok_sigs
 
